@@ -1605,8 +1605,9 @@ class Compiler:
         yield EmitText(node.prefix + node.name + space + node.suffix)
 
     def visit_Attribute(self, node):
+        # (the text taken from the template is not a format directive)
         attr_format = (node.space + node.name + node.eq +
-                       node.quote + "%s" + node.quote)
+                       node.quote).replace("%", "%%") + "%s" + node.quote
 
         filter_args = list(map(self._engine.cache.get, node.filters))
 
